@@ -52,6 +52,75 @@ type c20Counting struct {
 	storage.Storage
 	heads, gets atomic.Int64
 	onHead      func()
+	// window, when set, runs once at the moment the middleware hands a mutating call to the inner storage,
+	// BEFORE the inner storage executes it (a gated inner store: the call is in flight, not yet applied).
+	window func()
+}
+
+func (c *c20Counting) gate() {
+	if w := c.window; w != nil {
+		c.window = nil
+		w()
+	}
+}
+
+func (c *c20Counting) PutObject(ctx context.Context, b storage.BucketName, k storage.ObjectKey, ct *string, data io.Reader, ci *storage.ChecksumInput, o *storage.PutObjectOptions) (*storage.PutObjectResult, error) {
+	c.gate()
+	return c.Storage.PutObject(ctx, b, k, ct, data, ci, o)
+}
+func (c *c20Counting) CopyObject(ctx context.Context, sb storage.BucketName, sk storage.ObjectKey, db storage.BucketName, dk storage.ObjectKey, o *storage.CopyObjectOptions) (*storage.CopyObjectResult, error) {
+	c.gate()
+	return c.Storage.CopyObject(ctx, sb, sk, db, dk, o)
+}
+func (c *c20Counting) AppendObject(ctx context.Context, b storage.BucketName, k storage.ObjectKey, data io.Reader, ci *storage.ChecksumInput, o *storage.AppendObjectOptions) (*storage.AppendObjectResult, error) {
+	c.gate()
+	return c.Storage.AppendObject(ctx, b, k, data, ci, o)
+}
+func (c *c20Counting) DeleteObject(ctx context.Context, b storage.BucketName, k storage.ObjectKey, o *storage.DeleteObjectOptions) (*storage.DeleteObjectResult, error) {
+	c.gate()
+	return c.Storage.DeleteObject(ctx, b, k, o)
+}
+func (c *c20Counting) DeleteObjects(ctx context.Context, b storage.BucketName, e []storage.DeleteObjectsInputEntry) (*storage.DeleteObjectsResult, error) {
+	c.gate()
+	return c.Storage.DeleteObjects(ctx, b, e)
+}
+func (c *c20Counting) CompleteMultipartUpload(ctx context.Context, b storage.BucketName, k storage.ObjectKey, u storage.UploadId, ci *storage.ChecksumInput, o *storage.CompleteMultipartUploadOptions) (*storage.CompleteMultipartUploadResult, error) {
+	c.gate()
+	return c.Storage.CompleteMultipartUpload(ctx, b, k, u, ci, o)
+}
+func (c *c20Counting) PutObjectTagging(ctx context.Context, b storage.BucketName, k storage.ObjectKey, tags map[string]string, o *storage.ObjectTaggingOptions) error {
+	c.gate()
+	return c.Storage.PutObjectTagging(ctx, b, k, tags, o)
+}
+func (c *c20Counting) DeleteObjectTagging(ctx context.Context, b storage.BucketName, k storage.ObjectKey, o *storage.ObjectTaggingOptions) error {
+	c.gate()
+	return c.Storage.DeleteObjectTagging(ctx, b, k, o)
+}
+func (c *c20Counting) TransitionObjectStorageClass(ctx context.Context, b storage.BucketName, k storage.ObjectKey, cls string, o *storage.TransitionObjectStorageClassOptions) error {
+	c.gate()
+	return c.Storage.TransitionObjectStorageClass(ctx, b, k, cls, o)
+}
+
+// c20Chunked hands its data out in reads of at most n bytes.
+type c20Chunked struct {
+	data []byte
+	n    int
+}
+
+func (r *c20Chunked) Read(p []byte) (int, error) {
+	if len(r.data) == 0 {
+		return 0, io.EOF
+	}
+	m := r.n
+	if m > len(p) {
+		m = len(p)
+	}
+	if m > len(r.data) {
+		m = len(r.data)
+	}
+	copy(p, r.data[:m])
+	r.data = r.data[m:]
+	return m, nil
 }
 
 func (c *c20Counting) HeadObject(ctx context.Context, b storage.BucketName, k storage.ObjectKey, o *storage.HeadObjectOptions) (*storage.Object, error) {
@@ -299,6 +368,42 @@ func (c *c20Seq) read(line string) {
 // mutate executes one s3hist op line through the middleware and prints what the model needs to follow.
 func (c *c20Seq) mutate(line string) {
 	t := strings.Fields(line)
+	a0 := kv(t)
+	if a0["win"] == "1" && len(t) >= 4 {
+		// reads of the written key issued while the call is in flight at the inner storage (before it is applied)
+		b, k := t[2], t[3]
+		switch t[1] {
+		case "cp":
+			b, k = t[4], t[5]
+		case "dels":
+			k = strings.Split(t[3], ",")[0]
+		}
+		c.env.cnt.window = func() {
+			c.read(fmt.Sprintf("rd get %s %s vid=~ im=~ inm=~", b, k))
+			c.read(fmt.Sprintf("rd head %s %s vid=~ im=~ inm=~", b, k))
+		}
+		defer func() { c.env.cnt.window = nil }()
+	}
+	if t[1] == "put" && a0["chunk"] != "" && a0["chunk"] != "0" {
+		// PutObject whose body arrives in small reads (s3hCase.exec hands the whole body over in one piece)
+		var n int
+		fmt.Sscanf(a0["chunk"], "%d", &n)
+		c.out.Line("%s", line)
+		body := unhexTok(t[4])
+		opts := &storage.PutObjectOptions{Tags: decPairs(a0["tags"]), Metadata: decMeta(a0["md"]), StorageClass: decS(a0["cls"]),
+			IfNoneMatchStar: a0["inm"] == "1", IfMatchETag: imArg(a0["im"])}
+		res, err := c.env.mw.PutObject(c.ctx, storage.MustNewBucketName("bkt-"+t[2]), storage.MustNewObjectKey(t[3]), decS(a0["ct"]),
+			&c20Chunked{data: append([]byte(nil), body...), n: n}, nil, opts)
+		c.learnVids()
+		if err != nil {
+			c.resErr(err)
+		} else {
+			c.noteEtag(t[2], t[3], *res.ETag, int64(len(body)))
+			c.out.Line("res ok vid=%s etag=%s", c.vidOut(res.VersionID), *res.ETag)
+		}
+		c.out.Line("aux put data=%s inhead=%s", md5tok(body), c.doRead(c.env.stk.Storage, "head", t[2], t[3], nil, nil, nil))
+		return
+	}
 	switch t[1] {
 	case "get", "head": // generated reads become lock-step reads
 		a := kv(t)
@@ -390,6 +495,12 @@ func (g *c20Gen) step() {
 		g.c.read(g.readLine())
 	case r.Chance(1, 6):
 		line := fmt.Sprintf("op put b0 %s %s %s inm=0 im=~", g.g.key(), verifx.Hex(g.g.body()), genOpts(r).line())
+		if r.Chance(1, 5) {
+			line += fmt.Sprintf(" chunk=%d", verifx.Pick(r, []int{1, 37, 256, 1000}))
+		}
+		if r.Chance(1, 5) {
+			line += " win=1"
+		}
 		g.note(line)
 		g.c.mutate(line)
 	case r.Chance(1, 14):
@@ -401,9 +512,19 @@ func (g *c20Gen) step() {
 		for _, k := range ks {
 			g.recent = append(g.recent, [2]string{b, k})
 		}
-		g.c.mutate(fmt.Sprintf("op dels %s %s", b, strings.Join(ks, ",")))
+		w := ""
+		if r.Chance(1, 4) {
+			w = " win=1"
+		}
+		g.c.mutate(fmt.Sprintf("op dels %s %s%s", b, strings.Join(ks, ","), w))
 	default:
 		line := g.g.next()
+		switch strings.Fields(line)[1] {
+		case "put", "cp", "app", "del", "cmpl", "ptag", "dtag", "trans":
+			if r.Chance(1, 4) {
+				line += " win=1"
+			}
+		}
 		g.note(line)
 		g.c.mutate(line)
 	}
@@ -451,6 +572,46 @@ func c20Directed() [][]string {
 			"op put b0 k1 -" + plain, rd("get", "b0", "k1"), rd("head", "b0", "k1"),
 		},
 	}
+}
+
+// c20DirectedMore: histories added later; they run AFTER the scripted overlaps so that earlier case numbers stay put.
+func c20DirectedMore() []struct {
+	cfg int
+	ops []string
+} {
+	h := verifx.HexS
+	plain := " ct=~ md=~ tags=~ cls=~ inm=0 im=~"
+	rd := func(kind, b, k string) string { return fmt.Sprintf("rd %s %s %s vid=~ im=~ inm=~", kind, b, k) }
+	// every mutating method with reads of the written key issued while the call is in flight at the inner storage
+	// (gated inner store), each followed by reads after the call has returned
+	window := []string{
+		"op mkb b0", "op put b0 k0 " + h("version-one") + plain, rd("get", "b0", "k0"),
+		"op put b0 k1 " + h("source-object") + " ct=" + h("text/plain") + " md=" + h("a") + ":" + h("1") + " tags=" + h("t") + ":" + h("v") + " cls=~ inm=0 im=~",
+		"op put b0 k0 " + h("version-two!") + plain + " win=1", rd("get", "b0", "k0"), rd("head", "b0", "k0"),
+		"op cp b0 k1 b0 k0 svid=~ mdir=C tdir=C ct=~ md=~ tags=~ cls=~ win=1", rd("get", "b0", "k0"), rd("head", "b0", "k0"),
+		"op app b0 k0 " + h("+tail") + " off=~ win=1", rd("get", "b0", "k0"), rd("head", "b0", "k0"),
+		"op ptag b0 k0 vid=~ tags=" + h("env") + ":" + h("prod") + " win=1", rd("head", "b0", "k0"), rd("get", "b0", "k0"),
+		"op dtag b0 k0 vid=~ win=1", rd("head", "b0", "k0"), rd("get", "b0", "k0"),
+		"op trans b0 k0 GLACIER vid=~ win=1", rd("head", "b0", "k0"), rd("get", "b0", "k0"),
+		"op mpu b0 k0 ct=~ md=~ tags=~ cls=~", "op upp b0 k0 0 1 " + h("part-one-of-the-new-object"), rd("get", "b0", "k0"),
+		"op cmpl b0 k0 0 parts=~ inm=0 im=~ win=1", rd("get", "b0", "k0"), rd("head", "b0", "k0"),
+		"op del b0 k0 vid=~ im=~ win=1", rd("get", "b0", "k0"), rd("head", "b0", "k0"),
+		rd("get", "b0", "k1"), "op dels b0 k1,k0 win=1", rd("get", "b0", "k1"), rd("head", "b0", "k1"),
+	}
+	// bodies around the cache threshold (maxobj 600) arriving in small reads
+	big := func(n int) string { return verifx.Hex(bytesRepeat('q', n)) }
+	chunks := []string{
+		"op mkb b0", "op put b0 k0 " + big(599) + plain + " chunk=100", rd("get", "b0", "k0"),
+		"op put b0 k0 " + big(600) + plain + " chunk=1", rd("get", "b0", "k0"),
+		"op put b0 k0 " + big(601) + plain + " chunk=100", rd("get", "b0", "k0"), rd("get", "b0", "k0"),
+		"op put b0 k1 " + big(700) + plain + " chunk=100", rd("get", "b0", "k1"), rd("head", "b0", "k1"),
+		"op put b0 k1 " + big(1400) + plain + " chunk=37", rd("get", "b0", "k1"),
+	}
+	type d = struct {
+		cfg int
+		ops []string
+	}
+	return []d{{0, window}, {1, window}, {2, window}, {6, chunks}}
 }
 
 func runC20Seq(f *verifx.Flags, out *verifx.Out, k int, seed uint64, directed []string, cfg c20Cfg, mode string, nops int) {
@@ -744,6 +905,12 @@ func runC20(args []string) {
 	}{{0, c20Cfgs[1]}, {0, c20Cfg{"fs", "mem", "none", 0, 1 << 20}}, {1, c20Cfgs[1]}, {1, c20Cfg{"fs", "mem", "none", 0, 1 << 20}}, {2, c20Cfgs[1]}} {
 		if f.Wants(k) {
 			runC20Sched(f, out, k, uint64(k), s.which, s.cfg)
+		}
+		k++
+	}
+	for _, d := range c20DirectedMore() {
+		if f.Wants(k) {
+			runC20Seq(f, out, k, uint64(k), d.ops, c20Cfgs[d.cfg], "directed", 0)
 		}
 		k++
 	}
